@@ -72,7 +72,7 @@ def build_go():
         h = os.path.join(VERIF, "harness")
         shutil.copy(os.path.join(REPO, "go.sum"), os.path.join(h, "go.sum"))
         with open(os.path.join(h, "go.mod"), "w") as f:
-            f.write(open(os.path.join(h, "go.mod.in")).read().replace("@TUNER@", TUNER_COPY))
+            f.write(open(os.path.join(h, "go.mod.in")).read().replace("@TUNER@", TUNER_COPY).replace("@REPO@", REPO))
         for tool in ("h", "gen"):
             rc, out = sh(["go", "build", "-tags", "verif", "-o", os.path.join(BIN, tool), "./cmd/" + tool],
                          cwd=h, timeout=900)
